@@ -54,8 +54,12 @@ def model(tag, grid, maxops, lens):
 
 
 def model_sanity(tag):
-    for dev in ("WriteNoTruncate", "WriteNotFlushed"):
-        p = dict(enforce=tlc.tla_set(L02 + L13), dev='{"%s"}' % dev, lens="1,2,3", maxops=2, grid="content")
+    p = dict(enforce=tlc.tla_set(L02 + L13), dev="{}", lens="1,2,3", maxops=3, grid="full")
+    r = tlc.model_check("Storage", MC_CFG % p, tag + "_full", workers=4, timeout=600)
+    if r["violated"]:
+        raise ToolError("Storage model (full disk): the ideal write_file violates the invariants: %s" % r["violated"])
+    for dev in ("WriteNoTruncate", "WriteNotFlushed", "WriteErrorSwallowed"):
+        p = dict(enforce=tlc.tla_set(L02 + L13), dev='{"%s"}' % dev, lens="1,2,3", maxops=2, grid="full" if dev == "WriteErrorSwallowed" else "content")
         r = tlc.model_check("Storage", MC_CFG % p, tag + "_" + dev, workers=4, timeout=600)
         if not r["violated"]:
             raise ToolError("Storage model sanity: %s does not violate the invariants" % dev)
@@ -104,19 +108,25 @@ def replay_one(args):
         if o is not None:
             fm[key] = o
     ops = [{"type": h["type"], "len": h["len"] * BLOCK, "fill": i + 1} for i, h in enumerate(hist)]
-    r = probe("storage", {"fm": fm, "umask": to_int(cfg["umask"]), "ops": ops})
+    # every fifth history runs on a "full disk": no file may grow beyond one and a half blocks, longer writes fail half-way
+    limit = BLOCK + BLOCK // 2 if idx % 5 == 4 else None
+    r = probe("storage", {"fm": fm, "umask": to_int(cfg["umask"]), "ops": ops}, fsize_limit=limit)
     ev = [{"e": "Reset", "mode": {k: sorted(v) for k, v in cfg["mode"].items()}, "uid": cfg["uid"], "gid": cfg["gid"],
            "umask": sorted(cfg["umask"]), "pre": pre, "idx": idx}]
     if not r.get("ok"):
         return idx, ev, "probe failed: %s" % r
     for h, res in zip(hist, r["results"]):
-        if not res.get("ok"):
-            return idx, ev, "write failed: %s" % res
         def obs(s):
             if s.get("exists"):
                 runs = [{"fill": b, "len": (c // BLOCK if c % BLOCK == 0 else -c)} for b, c in s["runs"]]
                 return {"exists": True, "runs": runs, "mode": to_bits(s["mode"]), "uid": s["uid"], "gid": s["gid"]}
             return {"exists": False, "runs": [], "mode": [], "uid": 0, "gid": 0}
+        if not res.get("ok"):
+            if limit is None or "seen" not in res:
+                return idx, ev, "write failed: %s" % res
+            # write_file reported the failure: whatever is on disk, nobody was told it is the new content
+            ev.append({"e": "WriteFailed", "type": h["type"], "seen": obs(res["seen"])})
+            continue
         ev.append({"e": "Write", "type": h["type"], "fill": res["fill"], "len": h["len"],
                    "ret": obs(res.get("at_return", res["seen"])), "seen": obs(res["seen"])})
     shutil.rmtree(d, ignore_errors=True)
